@@ -414,11 +414,16 @@ def r6_3(prog, rep, pp):
               "", "; ".join(f"{h} via {pp.chain(h)}" for h in hits) + ": training state is recomputed from the new frame")
     for q in ("terms.variable.Variable.eval_new_data_categoric", "terms.call.Call.eval_new_data_categoric"):
         f = prog.fn(q)
-        S = shared.categoric_summary(prog, f)["facts"]
+        summ = shared.categoric_summary(prog, f)
+        S = summ["facts"]
         obl(rep, f, f.node, "R6.3", S["categorical_all_with_remembered_levels"] and S["categorical_sites"] >= 1,
             "codes come from pd.Categorical(x, categories=self.levels)", f"{S['categorical_sites']} site(s)",
             "a categorical is built without the remembered levels")
         obl(rep, f, f.node, "R6.3", S["matrix_index_sites"] >= 1, "rows are taken from the remembered self.contrast_matrix.matrix")
+        obl(rep, f, f.node, "R6.3", S["matrix_indices_from_remembered_levels"],
+            "every row index into the remembered contrast matrix is a code taken with respect to the remembered self.levels (on every path)", "",
+            f"the contrast matrix is indexed by {summ.get('foreign_index')}: codes that follow the categories of the "
+            "new frame, not the levels frozen at training")
         writes = [n for n in ast.walk(f.node) if isinstance(n, ast.Attribute) and isinstance(n.ctx, ast.Store) and is_self_attr(n)]
         obl(rep, f, writes[0] if writes else f.node, "R6.3", not writes, "levels / contrast matrix are not reassigned at prediction")
     for q in ("terms.variable.Variable.eval_new_data", "terms.call.Call.eval_new_data"):
